@@ -38,7 +38,7 @@ func init() {
 	})
 	register(&Check{
 		ID: "C19", Level: "exploration",
-		Rule:        "REAL processes: every command is `pxcheck emit <plan>`, a deterministic generator that writes PRNG bytes (binary or line-structured UTF-8 text) to stdout and stderr in interleaved chunks of 1 B - 256 KiB, every chunk tagged with (job tag from a job variable, task, command, stream, offset) so that foreign bytes are recognisable wherever they land; sizes 0, 1, 2, 100, 4095, 4096, 65535-65537, 200000 (thorough: 1 MiB, 1 MiB+1, 8 MiB), with and without trailing newline, 1-4 commands per task, 1-5 tasks per job (some with dependencies), 1-6 jobs at once over 1-2 pipelines with concurrency 1-3, commands that fail midway (output complete up to the failure; later commands only with allow_failure), a slow task that is canceled (stored output must be a prefix of the written stream). Task names: plain, spaces, dots, unicode, names that are prefixes of each other, names with '/', '..', '%'. Oracle: bytes from FileOutputStore.Reader == recomputed stream (length, SHA-256, first differing offset), GET /job/logs equal for UTF-8 payloads, 404 for a task the job does not have (also one that another job has), no log file outside the job's directory. Every 16th case: the log file of ONE task cannot be created (name longer than a file name may be / path taken by a directory) after a sibling finished and while another still writes - what the siblings wrote is returned completely by the store and by GET /job/logs. A situation is (#commands, size class, lines?, canceled?, task-name class)",
+		Rule:        "REAL processes: every command is `pxcheck emit <plan>`, a deterministic generator that writes PRNG bytes (binary or line-structured UTF-8 text) to stdout and stderr in interleaved chunks of 1 B - 256 KiB, every chunk tagged with (job tag from a job variable, task, command, stream, offset) so that foreign bytes are recognisable wherever they land; sizes 0, 1, 2, 100, 4095, 4096, 65535-65537, 200000 (thorough: 1 MiB, 1 MiB+1, 8 MiB), with and without trailing newline, 1-4 commands per task, 1-5 tasks per job (some with dependencies), 1-6 jobs at once over 1-2 pipelines with concurrency 1-3, commands that fail midway (output complete up to the failure; later commands only with allow_failure), a slow task that is canceled (stored output must be a prefix of the written stream). Task names: plain, spaces, dots, unicode, names that are prefixes of each other, names with '/', '..', '%'. Oracle: bytes from FileOutputStore.Reader == recomputed stream (length, SHA-256, first differing offset), GET /job/logs equal for UTF-8 payloads, 404 for a task the job does not have (also one that another job has), no log file outside the job's directory. Every 16th case: the log file of ONE task cannot be created (name longer than a file name may be / path taken by a directory) after a sibling finished and while another still writes - what the siblings wrote is returned completely by the store and by GET /job/logs. A situation is (#commands, size class, lines?, canceled?, task-name class). Every 16th case: two task names related through the store's escaping (build/app and build%2Fapp, load 100% and load 100%25, ...), the second task never ran: store and API return nothing for it",
 		Assumptions: []string{"stdout and stderr are compared separately; relative order between the two streams is not part of the statement"},
 		Cases:       func(t string) int { return tierN(t, 64, 1600) },
 		RunCase: func(c *CaseCtx) *CaseResult {
@@ -61,7 +61,7 @@ func init() {
 	nShapes := len(drv.ProcShapes())
 	register(&Check{
 		ID: "C20", Level: "exploration",
-		Rule:        "REAL process trees from a grammar (16 shapes: plain, nested bash -c depth 2 and 4, shell-level background jobs with and without wait, interpreter-level `cmd &`, pipelines of 3 stages at interpreter and shell level, subshells, children that trap '' INT, INT-ignoring parent with forked grandchild, a leaf that exits 100 ms after INT, two commands in sequence, and two shapes with an INT-ignoring process that is detached from the task's output) x cancel instant (tree fully up, immediately after the schedule request, after a random part of the start-up) x CancelJob / forced Shutdown (of a runner that also holds 12 jobs that ended earlier) x 0-2 other jobs with their own trees; kill timeout 300 ms; plus cases with kill timeout 0 / negative / 150 ms / 700 ms on interrupt-ignoring trees next to a control job whose process dies on the interrupt (its cancel-to-report latency calibrates the allowance: finished within K + max(1.5 s, 10 x control)). plus forced shutdowns with a kill timeout of 5.5 s / 6.5 s (nothing of the job may be alive when Shutdown returns); plus forced shutdowns over 4-5 running jobs that ALL ignore the interrupt (kill timeout 0.9 / 1.2 s; every job finished within kill timeout + calibrated allowance, i.e. stopped side by side and not one after the other); plus jobs of two tasks canceled exactly in the gap between them (loop parked through hook H1) while a background command of the first task is alive. Every process carries a per-run, per-job marker in its environment; oracle = /proc scan (environ + state != Z) at the instant the job is first observed completed, and again after kill timeout + allowance; elapsed time is counted in heartbeats of the harness process (limit kill timeout + 5 s). Processes of uncanceled jobs must still be alive. A situation is (shape, cancel instant, via shutdown, #others, #processes up at cancel)",
+		Rule:        "REAL process trees from a grammar (16 shapes: plain, nested bash -c depth 2 and 4, shell-level background jobs with and without wait, interpreter-level `cmd &`, pipelines of 3 stages at interpreter and shell level, subshells, children that trap '' INT, INT-ignoring parent with forked grandchild, a leaf that exits 100 ms after INT, two commands in sequence, and two shapes with an INT-ignoring process that is detached from the task's output) x cancel instant (tree fully up, immediately after the schedule request, after a random part of the start-up) x CancelJob / forced Shutdown (of a runner that also holds 12 jobs that ended earlier) x 0-2 other jobs with their own trees; kill timeout 300 ms; plus cases with kill timeout 0 / negative / 150 ms / 700 ms on interrupt-ignoring trees next to a control job whose process dies on the interrupt (its cancel-to-report latency calibrates the allowance: finished within K + max(1.5 s, 10 x control)). plus forced shutdowns with a kill timeout of 5.5 s / 6.5 s (nothing of the job may be alive when Shutdown returns); plus two shapes whose leader prints a line when interrupted while an interrupt-ignoring descendant holds the merged output / both streams; plus forced shutdowns over 4-5 running jobs that ALL ignore the interrupt (kill timeout 0.9 / 1.2 s; every job finished within kill timeout + calibrated allowance, i.e. stopped side by side and not one after the other); plus jobs of two tasks canceled exactly in the gap between them (loop parked through hook H1) while a background command of the first task is alive. Every process carries a per-run, per-job marker in its environment; oracle = /proc scan (environ + state != Z) at the instant the job is first observed completed, and again after kill timeout + allowance; elapsed time is counted in heartbeats of the harness process (limit kill timeout + 5 s). Processes of uncanceled jobs must still be alive. A situation is (shape, cancel instant, via shutdown, #others, #processes up at cancel)",
 		Assumptions: []string{"processes that leave the process group (setsid) are excluded by the statement", "the timed bound uses a 5 s allowance measured in heartbeats so that a stalled machine stalls the clock"},
 		Cases: func(t string) int {
 			return tierN(t, nShapes*3, nShapes*3*2*3*8) + tierN(t, 12, 240) + tierN(t, 6, 120) + tierN(t, 4, 80) + tierN(t, 2, 8) + tierN(t, 2, 16)
